@@ -167,6 +167,53 @@ GRAPH_CODES = {0: 'ok', 1: 'a source chose something that is not one of its cand
                3: 'total cost above the optimum', 7: 'total cost below the optimum (model broken)', 6: 'wrong length'}
 
 
+# ---- third harness: the stack-machine models against the real iterative solvers, choice by choice ----
+ITER_IMPORTS = "From TP Require Import Model.Assign Model.Iterative Model.IterCheck."
+ITER_FUNC = "fun c => match c with (numba, srcs, dests) => check_iter numba srcs dests end"
+ITER_CODES = {0: 'ok', 7: 'model returned no assignment', 10: 'model out of fuel (termination bound violated)',
+              11: 'the solver returned a different choice than the stack-machine model of it (tie-breaking included)'}
+
+
+def gen_sq_graph(rng, tier):
+    """candidate graph with perfect-square costs (sqrt and re-squaring exact in floats, so tie-breaking is exact too)"""
+    ns = rng.randint(1, 5 if tier == 'quick' else 7)
+    nd = rng.randint(1, 5 if tier == 'quick' else 7)
+    R = rng.choice([4, 6, 9])
+    srcs = []
+    for i in range(ns):
+        ds = [d for d in range(nd) if rng.random() < 0.7][:8]
+        cs = sorted([(d, rng.choice([0, 1, 1, 2, 2, 3, R]) ** 2) for d in ds], key=lambda x: x[1])
+        srcs.append(cs)
+    return dict(srcs=srcs, nd=nd, R2=R * R, numba=rng.random() < 0.5)
+
+
+def run_iter(g):
+    from trackpy.linking import subnetlinker as sl
+    from trackpy.linking.utils import Point
+    import math
+    Point.reset_counter()
+    R = math.sqrt(g['R2'])
+    dps = [Point(1, (float(j),)) for j in range(g['nd'])]
+    sps = []
+    for i, cs in enumerate(g['srcs']):
+        p = Point(0, (float(i),))
+        p.forward_cands = [(dps[d], math.sqrt(c)) for d, c in cs] + [(None, R)]
+        sps.append(p)
+    if g['numba']:
+        order = list(sps)
+        spl, dpl = sl.numba_link(order, g['nd'], R)
+    else:
+        order = sorted(sps, key=lambda x: len(x.forward_cands))      # the solver's own (stable) sort
+        spl, dpl = sl.nonrecursive_link(list(sps), g['nd'], R)
+    res = {id(s): d for s, d in zip(spl, dpl)}
+    return [sps.index(s) for s in order], [None if res[id(s)] is None else dps.index(res[id(s)]) for s in order]
+
+
+def iter_term(g, order, dests):
+    srcs = clist([clist(["(Some %s, %s)" % (cnat(d), cZ(c)) for d, c in g['srcs'][i]] + ["(None, %s)" % cZ(g['R2'])]) for i in order])
+    return "(%s, %s, %s)" % ('true' if g['numba'] else 'false', srcs, clist([("None" if d is None else "(Some %s)" % cnat(d)) for d in dests]))
+
+
 def run(chk):
     common.quiet_trackpy()
     chk.coq()
@@ -217,6 +264,23 @@ def run(chk):
                           dict(kind='graph', code=r, graph=g, impl_assignment={str(k): v for k, v in a.items()}))
     if graphs:
         chk.sample(dict(graph=graphs[0][0], impl_assignment={str(k): v for k, v in graphs[0][1].items()}))
+    # iterative machines, exact
+    ni = 200 if chk.tier == 'quick' else 3000
+    iterms, igraphs = [], []
+    for k in range(ni):
+        g = gen_sq_graph(chk.rng, chk.tier)
+        try:
+            order, dests = run_iter(g)
+        except Exception as e:
+            chk.violation('iterative solver: exception', 'iterative solver raised %r' % e, dict(kind='itergraph', graph=g)); continue
+        iterms.append(iter_term(g, order, dests)); igraphs.append((g, order, dests))
+        chk.tally('stack machine vs ' + ('_numba_subnet_norecur' if g['numba'] else 'nonrecursive_link'))
+    ires = common.coq_eval_lists(chk.work, ITER_IMPORTS, ITER_FUNC, iterms, tag='iter')
+    for (g, order, dests), r in zip(igraphs, ires):
+        chk.count(('itergraph', g), len(g['srcs']) >= 3)
+        if r != 0:
+            chk.violation('iterative solver: %s' % ITER_CODES.get(r, r), '%s: %s' % ('numba_link' if g['numba'] else 'nonrecursive_link', ITER_CODES.get(r, r)),
+                          dict(kind='itergraph', code=r, graph=g, impl_choice=dests))
     chk.coverage['rule'] = ("lattice movies (integer / quarter-pixel coordinates, 1-3 D, clusters, vanishing and new particles, blank frames, duplicates) through "
                             "trackpy.link_iter with every solver strategy, memory 0-3, lowered size limits; plus constructed candidate graphs through the subnet linkers. "
                             "non-trivial = movie with >= 6 features / graph with >= 3 sources; distinct by content hash")
